@@ -566,6 +566,21 @@ def mem_pair_corpus():
     return out
 
 
+def trailing_store_corpus(seed, n):
+    """a load early in the block (it heads the memory order, so the stores are not emitted eagerly), stack traffic, and several stores at the
+    end that leave dead words behind: the back end flushes the stores after the final stack is settled and pops what is left"""
+    rng = random.Random(seed)
+    out = ["PUSH1 0xff DUP1 PUSH1 0x40 MSTORE MLOAD SWAP4 PUSH1 0x40 MSTORE MSTORE MSTORE8"]
+    for _ in range(n):
+        b = [rng.choice(["PUSH1 0x40 MLOAD", "DUP1 MLOAD", "PUSH1 0xff DUP1 PUSH1 0x40 MSTORE MLOAD", "PUSH1 0x0 SLOAD"])]
+        for _ in range(rng.randrange(1, 4)):
+            b.append(rng.choice(["SWAP1", "SWAP2", "SWAP3", "SWAP4", "DUP1", "DUP2", "PUSH1 0x40", "PUSH1 0x7", "DUP3"]))
+        for _ in range(rng.randrange(2, 5)):
+            b.append(rng.choice(["MSTORE", "MSTORE8", "SSTORE", "PUSH1 0x40 MSTORE", "PUSH1 0x20 MSTORE8", "SWAP1 MSTORE", "DUP2 SWAP1 SSTORE"]))
+        out.append(" ".join(b))
+    return out
+
+
 def folded_key_corpus():
     """two accesses of one storage slot / memory word whose keys are the same constant written differently: a literal, a folded unary
     operation (ISZERO, NOT of a constant), a folded binary operation; every pairing, store/store, store/load and load/store"""
